@@ -300,6 +300,18 @@ impl Property for C04 {
                 2 => st.bc = 2,
                 _ => {}
             }
+            // operands at 16 KiB page boundaries (contention status changes between neighbouring bytes)
+            if rng.chance(1, 3) {
+                let b = *rng.pick(&[0x3FFFu16, 0x4000, 0x4001, 0x7FFF, 0x8000, 0x8001, 0xBFFF, 0xC000, 0xC001, 0xFFFF, 0x0000, 0x0001]);
+                match rng.below(6) {
+                    0 => st.hl = b,
+                    1 => st.de = b,
+                    2 => st.bc = b,
+                    3 => st.sp = b,
+                    4 => st.ix = b.wrapping_sub(rng.below(3) as u16),
+                    _ => st.pc = b.wrapping_sub(rng.below(4) as u16),
+                }
+            }
             let enc = encode_stratified(&mut rng);
             write_mem(&mut e, st.pc, &enc);
             let t = pick_t(&mut rng, &ula);
